@@ -306,7 +306,7 @@ pub fn run(rep: &Report) {
     let fixed = ["a + b + c * f()", "d = a + f(b + c)", "(a, (b, c), f(g(x)), ()) ; x = a ; f x", "f(a, b)(", "a = b = c", "f g a , , b ; ; c"];
     let ctx = Ctx::new(refmodel::interp::Kind::HashMap);
     common::enumerate(rep, "fixed", fixed.len() as u64, 1, &|i, l| check_source(fixed[i as usize], &ctx, 1, None, l));
-    let n = rep.tier.pick(50_000u64, 1_000_000);
+    let n = rep.tier.pick(300_000u64, 4_000_000);
     let depth = rep.tier.pick(5u32, 8);
     common::random_search(rep, "random-trees", 140, n, &move || arb_case(depth), &|c: &Case, l| {
         let toks = render_tokens(&c.ast, &mut BitChoices::new(&c.bits));
